@@ -13,12 +13,15 @@ package p
 
 //go:generate echo keep-me
 
+//line orig-generated.y:10
+//export exported-c-name
+
 // helper does things (top-secret comment).
 func helper(x int) int { /* inline top-secret */
 	return other(x) + 1 // trailing top-secret
 }
 
-func other(x int) int { return x }
+/*line orig-block.y:5*/ func other(x int) int { return x }
 `
 
 const printSrcB = `package p
@@ -49,10 +52,12 @@ func H_C02_printfile() {
 	symx.Assert(err == nil, "printFile succeeds")
 	text := string(append([]byte(nil), outA...))
 	if !obf {
-		symx.Assert(strings.Contains(text, "top-secret comment") && !strings.Contains(text, "/*line"), "plain packages keep comments and get no position directives")
+		symx.Assert(strings.Contains(text, "top-secret comment") && !strings.Contains(text, "/*line :") && strings.Count(text, "/*line ") == 1, "plain packages keep comments and get no position directives")
 		return
 	}
 	symx.Assert(!strings.Contains(text, "top-secret"), "no comment text survives")
+	symx.Assert(!strings.Contains(text, "orig-generated") && !strings.Contains(text, "orig-block") && !strings.Contains(text, "exported-c-name"),
+		"no line or export comment of the original survives (only //go: directives are kept)")
 	symx.Assert(strings.Contains(text, "//go:generate echo keep-me"), "directives are kept")
 	symx.Assert(strings.HasPrefix(text, "//line :1\n"), "the file defaults to an empty file name")
 	symx.Assert(!strings.Contains(text, "alpha-file") && !strings.Contains(text, "secret-dir"), "the file name and directory do not appear")
